@@ -99,3 +99,171 @@ func EqualTable(p *core.Prog, r *core.Report) {
 	}
 	_ = core.FuncName
 }
+
+// DATA-WALK — the equality predicate descends into slices and maps by recursion; Go values may contain themselves
+// (`a := []interface{}{nil}; a[0] = a`), which reflect.DeepEqual survives thanks to its visited set. A recursive
+// descent of its own must carry one too: in the recursive function, every recursive call is dominated by an
+// insertion into a map parameter that is handed on unchanged, that insertion by a look-up of the same key with a
+// return on "seen", and the key is built from the identities (reflect.Value.Pointer) of both containers.
+// Without it UniqueItems / Enum on a self-containing value die with a fatal stack overflow.
+func DataWalk(p *core.Prog, r *core.Report) {
+	const rule = "DATA-WALK"
+	var root *ssa.Function
+	for _, g := range p.Funcs {
+		if g.Parent() == nil && isValueEqualityPredicate(p, g) {
+			root = g
+		}
+	}
+	if root == nil {
+		r.OK(rule, "recursion", "-", "no value-equality predicate of the package: element comparison is reflect.DeepEqual's (which keeps a visited set)")
+		return
+	}
+	// recursive functions reachable from the predicate that descend into containers
+	seen := map[*ssa.Function]bool{}
+	var recs []*ssa.Function
+	var visit func(g *ssa.Function, d int)
+	visit = func(g *ssa.Function, d int) {
+		if g == nil || seen[g] || d > 4 || !p.InSubject(g) {
+			return
+		}
+		seen[g] = true
+		self, descends := false, false
+		core.EachInstr(g, func(i ssa.Instruction) {
+			c, ok := i.(ssa.CallInstruction)
+			if !ok {
+				return
+			}
+			h := core.StaticCallee(c)
+			if h == nil {
+				return
+			}
+			if h == g {
+				self = true
+			}
+			switch core.QualName(h) {
+			case "reflect.Value.Index", "reflect.Value.MapIndex", "reflect.Value.Elem", "reflect.Value.Field":
+				descends = true
+			}
+			visit(h, d+1)
+		})
+		if self && descends {
+			recs = append(recs, g)
+		}
+	}
+	visit(root, 0)
+	// mutual recursion root -> root through containers (the predicate calling itself) counts as well
+	if len(recs) == 0 {
+		r.OK(rule, "recursion", p.Pos(root.Pos()), "the equality predicate does not descend into containers by recursion of its own")
+		return
+	}
+	for _, g := range recs {
+		key := core.FuncName(g) + ":visited"
+		var recCalls []*ssa.Call
+		core.EachInstr(g, func(i ssa.Instruction) {
+			if c, ok := i.(*ssa.Call); ok && core.StaticCallee(c) == g {
+				recCalls = append(recCalls, c)
+			}
+		})
+		var vp *ssa.Parameter
+		for k, prm := range g.Params {
+			if !strings.HasPrefix(prm.Type().Underlying().String(), "map[") {
+				continue
+			}
+			all := true
+			for _, rc := range recCalls {
+				if k >= len(rc.Call.Args) || rc.Call.Args[k] != ssa.Value(prm) {
+					all = false
+				}
+			}
+			if all {
+				vp = prm
+			}
+		}
+		if vp == nil {
+			r.Bad(rule, key, p.Pos(g.Pos()), core.FuncName(g)+" descends into slices and maps by calling itself without a visited set handed down the recursion: a value that contains itself (a := []interface{}{nil, 1}; a[0] = a) is unfolded for ever — UniqueItems([a, b]) and Enum(m, [m2]) on such values end in a fatal stack overflow, where reflect.DeepEqual terminates")
+			continue
+		}
+		okAll := true
+		why := ""
+		for _, rc := range recCalls {
+			marked := false
+			core.EachInstr(g, func(i ssa.Instruction) {
+				mu, ok := i.(*ssa.MapUpdate)
+				if !ok || mu.Map != ssa.Value(vp) || !core.InstrDominates(mu, rc) {
+					return
+				}
+				// a look-up of the same key dominates the insertion and returns on "seen"
+				looked := false
+				core.EachInstr(g, func(j ssa.Instruction) {
+					lk, ok := j.(*ssa.Lookup)
+					if !ok || lk.X != ssa.Value(vp) || !core.InstrDominates(lk, mu) {
+						return
+					}
+					if lk.Index == mu.Key || sameLoadedCell(lk.Index, mu.Key) {
+						looked = true
+					}
+				})
+				// the key carries the identity of both containers
+				nPtr := 0
+				var walk func(v ssa.Value, d int)
+				walk = func(v ssa.Value, d int) {
+					if v == nil || d > 8 {
+						return
+					}
+					if c, ok := v.(*ssa.Call); ok {
+						if h := core.StaticCallee(c); h != nil && (core.QualName(h) == "reflect.Value.Pointer" || core.QualName(h) == "reflect.Value.UnsafePointer") {
+							nPtr++
+							return
+						}
+					}
+					if ld, ok := v.(*ssa.UnOp); ok {
+						if al, ok := ld.X.(*ssa.Alloc); ok {
+							for _, ref := range core.Refs(al) {
+								switch x := ref.(type) {
+								case *ssa.Store:
+									if x.Addr == ssa.Value(al) {
+										walk(x.Val, d+1)
+									}
+								case *ssa.IndexAddr:
+									for _, r2 := range core.Refs(x) {
+										if st, ok := r2.(*ssa.Store); ok && st.Addr == ssa.Value(x) {
+											walk(st.Val, d+1)
+										}
+									}
+								}
+							}
+							return
+						}
+					}
+					if ins, ok := v.(ssa.Instruction); ok {
+						for _, op := range ins.Operands(nil) {
+							if op != nil && *op != nil {
+								walk(*op, d+1)
+							}
+						}
+					}
+				}
+				walk(mu.Key, 0)
+				if looked && nPtr >= 2 {
+					marked = true
+				}
+			})
+			if !marked {
+				okAll = false
+				why = p.Pos(rc.Pos())
+			}
+		}
+		if okAll {
+			r.OK(rule, key, p.Pos(g.Pos()), fmt.Sprintf("every recursive call (%d) is preceded by a look-up and an insertion of the pair of container identities in the visited set handed down", len(recCalls)))
+		} else {
+			r.Bad(rule, key, why, "a recursive descent of "+core.FuncName(g)+" is not preceded by a look-up and an insertion of the two containers' identities in the visited set: self-containing values are unfolded for ever (fatal stack overflow)")
+		}
+	}
+}
+
+// sameLoadedCell: two loads of the same local cell (a composite key built once and used for look-up and insertion).
+func sameLoadedCell(a, b ssa.Value) bool {
+	la, ok1 := a.(*ssa.UnOp)
+	lb, ok2 := b.(*ssa.UnOp)
+	return ok1 && ok2 && la.X == lb.X
+}
